@@ -185,6 +185,32 @@ def checkBlockHeaderContext (p : Params) (chain : List Hdr) (h : Hdr) (fastAdd :
         then .timeWarp
       else .ok
 
+/-- `medianTime` (mediantime.go): ids seen, offsets in arrival order, current offset (seconds) -/
+structure MedianTime where
+  ids : List String
+  offsets : List Int
+  offset : Int
+  deriving Repr
+
+def MedianTime.new : MedianTime := ⟨[], [], 0⟩
+
+/-- `AddTimeSample`; `offMs` is `timeVal - now` in milliseconds (the code truncates it to whole seconds
+    towards zero). Mirrors Core's behaviour of updating only on an odd number (≥ 5) of samples. -/
+def MedianTime.addSample (m : MedianTime) (id : String) (offMs : Int) : MedianTime :=
+  if m.ids.contains id then m else
+  let offs := (if m.offsets.length = Spec.MAX_MEDIAN_TIME_ENTRIES then m.offsets.drop 1 else m.offsets)
+                ++ [Int.tdiv offMs 1000]
+  let n := offs.length
+  if n < 5 ∨ n % 2 ≠ 1 then { ids := id :: m.ids, offsets := offs, offset := m.offset } else
+  let median := (sortInts offs).getD (n / 2) 0
+  { ids := id :: m.ids, offsets := offs,
+    offset := if median.natAbs < Spec.MAX_ALLOWED_OFFSET.toNat then median else 0 }
+
+/-- the offsets reported after each sample of a sequence -/
+def MedianTime.run : MedianTime → List (String × Int) → List Int
+  | _, [] => []
+  | m, (id, o) :: rest => let m' := m.addSample id o; m'.offset :: MedianTime.run m' rest
+
 inductive Verdict | ok | badTarget | badDifficulty | timeTooOld | timeWarp | assert | panic
   deriving DecidableEq, Repr
 
